@@ -315,3 +315,22 @@ package file
 //@   ensures err == nil && axisIdx < odsq4.ods.hdr.squareSize / 2 ==> !result0.IsParity && len(result0.Shares) == odsq4.ods.hdr.squareSize / 2
 //@   ensures err == nil && axisIdx < odsq4.ods.hdr.squareSize / 2 && axisType == 0 ==> forall i int :: 0 <= i && i < odsq4.ods.hdr.squareSize / 2 ==> result0.Shares[i] == cellOf(iface(odsq4.ods.fl), odsq4.ods.hdr.OffsetWithRoots(), odsq4.ods.hdr.squareSize / 2, axisIdx, i)
 //@   ensures err == nil && axisIdx < odsq4.ods.hdr.squareSize / 2 && axisType != 0 ==> forall i int :: 0 <= i && i < odsq4.ods.hdr.squareSize / 2 ==> result0.Shares[i] == cellOf(iface(odsq4.ods.fl), odsq4.ods.hdr.OffsetWithRoots(), odsq4.ods.hdr.squareSize / 2, i, axisIdx)
+
+// ---------------------------------------------------------------------------------------------
+// C05 / C09: a share range is served from rows read one by one, first row to last row of the range, into
+// a slice made for this call; the producer (which re-slices the rows it is given in place) gets that
+// slice and the coordinates of From and To-1. Nothing the accessor holds - in particular the cached
+// square - is written (frame: no modifies clause).
+//@ func (*ODS).RangeNamespaceData
+//@   property C05 C09
+//@   requires o != nil && o.hdr != nil && o.hdr.shareSize == 512 && o.hdr.squareSize >= 2 && odsCacheOK(o)
+//@   requires o.hdr.OffsetWithRoots() >= 0 && fsize(iface(o.fl)) >= o.hdr.OffsetWithRoots() && mod(fsize(iface(o.fl)) - o.hdr.OffsetWithRoots(), 512) == 0
+//@   requires from < to
+//@   callpre ODS).readAxisHalf: $arg1 == rsmt2d.Row && $arg2 == row
+//@   callpre AxisHalf).Extended: $arg0 == half
+//@   callpre shwap.RangeNamespaceDataFromShares: $arg0 == shares && isFresh($arg0) && $arg1 == fromCoords && $arg2 == toCoords
+//@   callpre shwap.RangeNamespaceDataFromShares: fromCoords.Row * odsSize + fromCoords.Col == from && toCoords.Row * odsSize + toCoords.Col == to - 1
+//@   loop 1: invariant idx == row - fromCoords.Row && fromCoords.Row <= row && row <= toCoords.Row + 1 && len(shares) == toCoords.Row - fromCoords.Row + 1 && isFresh(shares)
+//@   loop 1: invariant 0 <= fromCoords.Row && toCoords.Row < odsSize && odsSize == o.hdr.squareSize / 2
+//@   loop 1: invariant forall j int :: 0 <= j && j < idx ==> len(shares[j]) == 2 * odsSize
+//@   loop 1: invariant 0 <= fromCoords.Col && fromCoords.Col < odsSize && 0 <= toCoords.Col && toCoords.Col < odsSize && fromCoords.Row * odsSize + fromCoords.Col == from && toCoords.Row * odsSize + toCoords.Col == to - 1
